@@ -282,6 +282,15 @@ def check(ctx):
     tests = [n for n in ast.walk(ce) if isinstance(n, ast.If) and "startswith" in unparse(n.test)]
     ok = len(tests) == 1 and eqv(tests[0].test, "name.startswith('DASK_')")
     ctx.ob("ALG.collect-env.all-vars", ce, "collect_env takes every variable whose name starts with DASK_ (no test on the value)", ok, "" if ok else "an empty-valued DASK_* variable is dropped: it no longer overrides the YAML/inherited value with ''")
+    # ---------------- round 4b (C17-m7): interpret_value -- a successful literal_eval is final
+    from ..lib import eqv as _e4, returns as _r4, calls as _c4
+    iv4 = ctx.model.module("dask/config.py").func("interpret_value")
+    trys4 = [n for n in iv4.body if isinstance(n, ast.Try)]
+    ok = len(trys4) == 1 and any(isinstance(s_, ast.Return) and _e4(s_.value, "ast.literal_eval(value)") for s_ in trys4[0].body)
+    ctx.ob("FLOW.interpret.literal-final", trys4[0] if trys4 else iv4, "interpret_value returns ast.literal_eval(value) straight from the try", ok, "" if ok else "the yaml-word table is applied to the RESULT of literal_eval as well: DASK_X=\"'false'\" (a quoted string) becomes the boolean False")
+    gets4 = [c for c in _c4(iv4) if isinstance(c.func, ast.Attribute) and c.func.attr == "get" and _e4(c.func.value, "hardcoded_map")]
+    ok = len(gets4) == 1 and len(gets4[0].args) == 2 and _e4(gets4[0].args[0], "value.lower()") and _e4(gets4[0].args[1], "value") and not any(isinstance(n, ast.Assign) and any(_e4(t, "value") for t in n.targets) for n in ast.walk(iv4))
+    ctx.ob("FLOW.interpret.table-on-raw", gets4[0] if gets4 else iv4, "the none/null/true/false table is looked up with the raw string: hardcoded_map.get(value.lower(), value)", ok)
 
 
 VARIANTS = [
